@@ -86,7 +86,7 @@ if keep:
             shutil.copy(src_, dst_)
     try:   # keep hand-written fields across re-evaluations
         old_ = json.load(open(os.path.join(d, "meta.json")))
-        for k_ in ("needs", "first_contact", "note", "declined"):
+        for k_ in ("needs", "first_contact", "note", "declined", "what"):
             if old_.get(k_) and not meta.get(k_):
                 meta[k_] = old_[k_]
     except (OSError, ValueError):
